@@ -255,6 +255,8 @@ package sonic
 //@   loop 1 invariant b.si == old(b.si) && b.ri == old(b.ri) && b.wi == old(b.wi)
 //@   loop 1 invariant ptr(b.data) == old(ptr(b.data)) && cap(b.data) == old(cap(b.data))
 //@   loop 1 invariant forall j :: 0 <= j && j < b.wi ==> b.data[j] == old(b.data[j])
+//@   // every round hands the writer the unsent rest and (by the writer's contract) finishes it or fails
+//@   loop 1 decreases b.ri - b.si - writtenBytes
 //@   ensures [inv] bbInv(b) && b.si == old(b.si)
 //@   ensures [consumed] 0 <= result0 && int(result0) <= old(b.ri - b.si) && b.ri == old(b.ri) - int(result0) && b.wi == old(b.wi) - int(result0)
 //@   ensures [all] result1 == nil ==> int(result0) == old(b.ri - b.si)
